@@ -6,6 +6,9 @@ import (
 	"context"
 	"errors"
 	"fmt"
+	"github.com/attestantio/go-eth2-client/spec"
+	"github.com/attestantio/go-eth2-client/spec/capella"
+	"github.com/prysmaticlabs/go-bitfield"
 	"time"
 
 	"github.com/attestantio/go-eth2-client/api"
@@ -263,4 +266,68 @@ func VerifC15_MessageAndAggregate() {
 		}
 	}
 	vnd.Assert(len(d.ValidatorIndices) == nsel, "C15.message.nobody-else")
+}
+
+type hBlocks struct {
+	fail  bool
+	block *spec.VersionedSignedBeaconBlock
+}
+
+func (b *hBlocks) SignedBeaconBlock(_ context.Context, _ *api.SignedBeaconBlockOpts) (*api.Response[*spec.VersionedSignedBeaconBlock], error) {
+	if b.fail {
+		return nil, errors.New("mock block failure")
+	}
+	return &api.Response[*spec.VersionedSignedBeaconBlock]{Data: b.block, Metadata: map[string]any{}}, nil
+}
+
+type hSyncData struct {
+	hSyncMessenger
+	data  synccommitteemessenger.SlotData
+	found bool
+	asked []phase0.Slot
+}
+
+func (h *hSyncData) GetDataUsedForSlot(slot phase0.Slot) (synccommitteemessenger.SlotData, bool) {
+	h.asked = append(h.asked, slot)
+	return h.data, h.found
+}
+
+// VerifC16_VerifySyncInclusion: the inclusion check run on every head event:
+// any head block a node can deliver (pre-Altair without sync aggregate, Altair
+// or Capella with an aggregate; parent equal to or different from the root the
+// messages were signed over; fetch failing) and any recorded positions (also
+// beyond the committee size) end without a crash, asking for the data of the
+// slot before the head's.
+func VerifC16_VerifySyncInclusion() {
+	vstub.SPEChoices = []uint64{4}
+	e := newCtlEnv()
+	slot := phase0.Slot(vnd.U64("head.slot"))
+	vnd.Assume(uint64(slot) >= 1 && uint64(slot) < 1<<40)
+	root := phase0.Root(vnd.Root("messaged-root"))
+	data := &hSyncData{found: vnd.Bool("data-recorded"), data: synccommitteemessenger.SlotData{Root: root,
+		ValidatorToCommitteeIndex: map[phase0.ValidatorIndex][]phase0.CommitteeIndex{7: {phase0.CommitteeIndex(vnd.U64("position"))}, 8: {}}}}
+	e.s.syncCommitteeMessenger = data
+	parent := root
+	if vnd.Bool("head-built-on-another-block") {
+		parent = phase0.Root{0xdd}
+	}
+	bits := bitfield.NewBitvector512()
+	bits.SetBitAt(uint64(vnd.Choose("bit", 3)), true)
+	agg := &altair.SyncAggregate{SyncCommitteeBits: bits}
+	blocks := &hBlocks{fail: vnd.Bool("block.fail")}
+	switch vnd.Choose("block.version", 3) {
+	case 0:
+		blocks.block = &spec.VersionedSignedBeaconBlock{Version: spec.DataVersionPhase0, Phase0: &phase0.SignedBeaconBlock{Message: &phase0.BeaconBlock{Slot: slot, ParentRoot: parent, Body: &phase0.BeaconBlockBody{}}}}
+	case 1:
+		blocks.block = &spec.VersionedSignedBeaconBlock{Version: spec.DataVersionAltair, Altair: &altair.SignedBeaconBlock{Message: &altair.BeaconBlock{Slot: slot, ParentRoot: parent, Body: &altair.BeaconBlockBody{SyncAggregate: agg}}}}
+	case 2:
+		blocks.block = &spec.VersionedSignedBeaconBlock{Version: spec.DataVersionCapella, Capella: &capella.SignedBeaconBlock{Message: &capella.BeaconBlock{Slot: slot, ParentRoot: parent, Body: &capella.BeaconBlockBody{SyncAggregate: agg}}}}
+	}
+	e.s.signedBeaconBlockProvider = blocks
+	e.s.VerifySyncCommitteeMessages(context.Background(), &apiv1.HeadEvent{Slot: slot, Block: phase0.Root{0xbb}})
+	vnd.Assert(len(data.asked) == 1 && data.asked[0] == slot-1, "C16.syncverify.data-of-the-slot-before-the-heads")
+	// something that is not a head event is ignored
+	e.s.VerifySyncCommitteeMessages(context.Background(), "not a head event")
+	vnd.Assert(len(data.asked) == 1, "C16.syncverify.other-data-ignored")
+	vnd.Cover("C16.syncverify.survived")
 }
